@@ -33,6 +33,19 @@ CLAIMED.update({
  "C05": ("model_checking", "relational observation validation judged by TLC (Obs_Rel): the same pattern compiled as shipped and with the tree-rewrite gates on, plus equality with the TLA+ semantics inside the fragment",
          "For every pattern, input and start offset the match and all captures with the rewrites (auto-atomic loops, ending-backtracking elimination, bump-along markers, prefix factoring, atomic-alternation reordering) must equal those with the rewrites gated off, and both equal RegexSem.Find inside the fragment.", REL_NOTE, "6/C05"),
 })
+TB = "Trusted: TLC, CommunityModules Json/IOUtils, Go's unicode tables (Unicode.tla), the harness printer."
+CLAIMED.update({
+ "C16": ("model_checking", "observation validation against the TLA+ class algebra CharClass.tla: the real membership table over ALL runes is compared by TLC on every rune <= U+024F and on every breakpoint +-1 of both piecewise-constant membership functions (= everywhere), thorough: pointwise over all 1 114 112 runes",
+         "InClass is literally the sentence of the property; because both the specification's and the implementation's membership are piecewise constant between known breakpoints, agreement on all breakpoints +-1 is agreement on every rune. Six further lookup paths are compared on a sample domain.", TB + " Under IgnoreCase the domain is restricted as the property states.", "6/C16"),
+ "C17": ("model_checking", "TLC enumerates the whole bounded domain of the TLA+ numbering function Groups!Numbering (every declaration sequence up to the bound x mode) and each prediction is replayed into the real engine through every observable of the name/number map",
+         "A pure function with rich case analysis: one implementation test per element of its bounded domain, exhaustive within the bound.", TB, "6/C17"),
+ "C18": ("model_checking", "model checking of Options!Elab (the inline spelling means the compile-time options, checked by TLC on the specification for every family pattern/input) + TLC-enumerated forward conformance of four spellings + observation validation of random ASTs with options moved inline",
+         "Each spelling of (pattern, O) is predicted by the specification and replayed; the specification itself is checked to give the spellings one meaning, so the three real results are equal by transitivity, captures and group numbering included.", TB, "6/C18"),
+ "C19": ("model_checking", "observation validation against Escape.tla (the MEANING of escaped text): bounded-exhaustive strings over a branch-covering alphabet + random strings; TLC checks Meaning(Escape(s)) = s, the Unescape round trip and the anchored match table under 10 option sets",
+         "Escape.tla specifies what escaped text denotes, not one encoding; every string up to the bound over an alphabet with one representative per branch is checked, and literal meaning is observed through the real matcher (s matches, one-edit neighbours do not).", TB, "6/C19"),
+ "C20": ("model_checking", "metamorphic observation validation judged by TLC (Obs_Case): all members of a case-flip family must give one outcome, equal to RegexSem inside the fragment; the specification's own invariance is model-checked on the same families",
+         "Invariance under case changes of input and pattern letters is a relation between runs of the real engine; TLC checks it on every family, checks the exact outcome against the specification where it applies, and checks that the specification itself is invariant (M).", TB + " Only letters with a simple upper/lower fold orbit are flipped.", "6/C20"),
+})
 NOT_YET = "check not built yet in this round (planned, see DESIGN.md section 6)"
 
 hooks_commits = []
@@ -60,6 +73,10 @@ m = {
   {"name": "Gen_Find", "path": "spec/Gen_Find.tla", "serves_properties": ["C01", "C15"], "kind_free_text": "TLC-enumerated bounded pattern grammar with predicted results (forward conformance)"},
   {"name": "Obs_Rel", "path": "spec/Obs_Rel.tla", "serves_properties": ["C03", "C05"], "kind_free_text": "relational / SkipTo trace validation spec"},
   {"name": "Facts", "path": "spec/Facts.tla", "serves_properties": ["C04"], "kind_free_text": "TLA+ meaning of every published compile-time fact; Obs_Facts.tla enumerates all bounded strings"},
+  {"name": "CharClass", "path": "spec/CharClass.tla", "serves_properties": ["C16"], "kind_free_text": "class membership as set algebra; Obs_Class.tla validates recorded membership tables"},
+  {"name": "Groups", "path": "spec/Groups.tla", "serves_properties": ["C17"], "kind_free_text": "group numbering function; Gen_Groups.tla enumerates its domain"},
+  {"name": "Escape", "path": "spec/Escape.tla", "serves_properties": ["C19"], "kind_free_text": "meaning of escaped text; Obs_Escape.tla"},
+  {"name": "Obs_Case", "path": "spec/Obs_Case.tla", "serves_properties": ["C20"], "kind_free_text": "metamorphic case-flip families"},
   {"name": "Obs_Find", "path": "spec/Obs_Find.tla", "serves_properties": ["C01", "C15"], "kind_free_text": "trace/observation validation spec: recorded find results must be behaviours of RegexSem"},
  ],
  "checks": [],
